@@ -519,7 +519,7 @@ func main() {
 	runner.Main(&runner.Harness{
 		ID:          "C16",
 		Level:       "model_checking",
-		Rule:        "the handler configured in JSON and through the equivalent Caddyfile block (its UnmarshalCaddyfile) x all 8 command subsets x credential maps {none, one pair, two pairs, empty user name, empty password} x client dialogues from a grammar: greeting (version 5/4, 7 method lists), optional username/password sub-negotiation (version 1/5, right/wrong/empty user and password), request (version 5/4, command 0..4 and 255, address type 1/3/4/5) and every truncation of a permitted dialogue; the real handler and go-socks5 run under the scheduler, every net.Dial / net.ListenUDP of the library lands in the virtual network, which records it; states = distinct (configuration, dialogue) pairs",
+		Rule:        "the handler configured in JSON and through the equivalent Caddyfile block (its UnmarshalCaddyfile) x all 8 command subsets x credential maps {none, one pair, two pairs, empty user name, empty password} x client dialogues from a grammar: greeting (version 5/4, 7 method lists), optional username/password sub-negotiation (version 1/5, right/wrong/empty user and password), request (version 5/4, command 0..4 and 255, address type 1/3/4/5) and every truncation of a permitted dialogue; the real handler and go-socks5 run under the scheduler, every net.Dial / net.ListenUDP of the library lands in the virtual network, which records it; states = distinct (configuration, dialogue) pairs; credential pairs whose bytes are split between user and password at every other place; an account whose name is an unset placeholder; a Caddyfile credentials line with a dangling user name (must be refused, or the name is nobody's account)",
 		Assumptions: []string{"one schedule per dialogue (the property quantifies over inputs and configurations); placeholders: configurations with at most one command are also provisioned with {env.*} placeholders for the command and the passwords, after a handler with the same raw configuration was provisioned under other values; the DNS lookup go-socks5 performs for domain addresses before consulting the rules is not counted as a connection"},
 		Scenarios:   scenarios,
 		Run: func(tier string, scAny any, rep *runner.Report) {
